@@ -135,9 +135,6 @@ verus! {
 pub open spec fn pw(b: nat, e: nat) -> nat decreases e {
     if e == 0 { 1 } else if e % 2 == 0 { let h = pw(b, e / 2); h * h } else { b * pw(b, (e - 1) as nat) }
 }
-pub open spec fn ilog(b: nat, v: nat) -> nat decreases v {
-    if b < 2 || v < b { 0 } else { 1 + ilog(b, v / b) }
-}
 pub open spec fn mk(hi: nat, lo: nat) -> nat { hi * 0x1_0000_0000_0000_0000 + lo }
 """
 
@@ -170,29 +167,56 @@ def run_rows_unit(label, wd, facts, prelude="", functions=(), chunk=400, threads
             f.write("\n".join(lines))
         files.append((fn, index, "\n".join(lines)))
     r.cmds.append("verus <generated row obligations %s> --output-json --time" % label)
+    # canary: the machinery must flag a false closed fact (guards against a silently vacuous run)
+    cfile = os.path.join(sub, "canary.rs")
+    with open(cfile, "w") as f:
+        f.write(ROW_PRELUDE + prelude + "\nproof fn canary() { assert(pw(2, 10) == 1025) by(compute_only); }\n} fn main() {}")
+    cres = verus_run.run(cfile, threads=threads)
+    if cres["status"] != "failed":
+        r.error = "vacuity guard: canary false fact was not refuted in unit %s (%s)" % (label, cres.get("reason"))
+        return r
     for fn, index, src in files:
-        res = verus_run.run(fn, threads=threads)
-        r.solver_s += res.get("smt_ms", 0) / 1000.0
-        if res["status"] == "tool-error":
-            r.error = "verus could not process row unit %s: %s\n%s" % (label, res.get("reason"), res.get("raw", "")[-2000:])
+        remaining = dict(index)
+        bad_all = {}
+        for attempt in range(12):
+            lines = [ROW_PRELUDE, prelude]
+            for fnname, (name, expr, sample) in remaining.items():
+                lines.append("proof fn %s() { assert(%s) by(compute_only); } // %s" % (fnname, expr, name))
+            lines.append("} fn main() {}")
+            src = "\n".join(lines)
+            with open(fn, "w") as f:
+                f.write(src)
+            res = verus_run.run(fn, threads=threads)
+            r.solver_s += res.get("smt_ms", 0) / 1000.0
+            if res["status"] == "tool-error":
+                r.error = "verus could not process row unit %s: %s\n%s" % (label, res.get("reason"), res.get("raw", "")[-2000:])
+                break
+            srclines = src.split('\n')
+            bad = {}
+            for d in res["failures"] + res.get("undecided", []):
+                ln = d.get("line")
+                m = re.match(r'proof fn (o\d+)\(', srclines[ln - 1]) if ln and ln <= len(srclines) else None
+                if m:
+                    bad[m.group(1)] = (d, "undecided" if d in res.get("undecided", []) else "failed")
+            if res["status"] in ("failed", "undecided") and not bad:
+                r.error = "row unit %s: verus reported failures that could not be mapped to rows:\n%s" % (label, res["raw"][-1500:])
+                break
+            bad_all.update(bad)
+            for k in bad:
+                remaining.pop(k, None)
+            if not bad or not res.get("aborted_early") or not remaining:
+                break
+        else:
+            r.error = "row unit %s: more than 12 failing rows in one chunk; remaining rows undecided" % label
+        if r.error:
             break
-        srclines = src.split('\n')
-        bad = {}
-        for d in res["failures"] + res.get("undecided", []):
-            ln = d.get("line")
-            m = re.match(r'proof fn (o\d+)\(', srclines[ln - 1]) if ln and ln <= len(srclines) else None
-            if m:
-                bad[m.group(1)] = d
         for fnname, (name, expr, sample) in index.items():
-            if fnname in bad:
-                d = bad[fnname]
-                st = "undecided" if d in res.get("undecided", []) else "failed"
+            if fnname in bad_all:
+                d, st = bad_all[fnname]
                 r.obls.append(Obl("%s::%s" % (label, name), label, engine, st,
                                   detail="%s\nfact: %s\nsource: %s" % (d["msg"], expr[:1500], sample)))
             else:
                 r.obls.append(Obl("%s::%s" % (label, name), label, engine, "discharged", sample=sample))
-        if res["status"] == "failed" and not bad:
-            r.error = "row unit %s: verus reported failures that could not be mapped to rows:\n%s" % (label, res["raw"][-1500:])
     n = len(facts)
     r.samples.append({"unit": label, "obligation": facts[0][0], "fact": facts[0][1][:400], "source_row": facts[0][2]})
     if n > 1:
